@@ -288,7 +288,8 @@ func genAbort(r *rng, id int) *c17Case {
 		op{T: "obs"},
 		op{T: "sleep", Ms: 1500, M: "round"}, op{T: "obs"}, // round 1 (t=1s) done, scheduler in its error back-off (if any call failed)
 		op{T: "heal"},
-		op{T: "sleep", Ms: 10000, M: "recover"}, op{T: "obs"}, // t=11.5s: back-off over, round 2 and the buffered tick's round done
+		op{T: "sleep", Ms: 3000}, op{T: "obs"}, // t=4.5s: still in the back-off if a call failed (nothing may have happened)
+		op{T: "sleep", Ms: 7000, M: "recover"}, op{T: "obs"}, // t=11.5s: back-off over, round 2 and the buffered tick's round done
 		op{T: "sleep", Ms: 1200, M: "round"}, op{T: "obs"}, // tick at 12s
 	)
 	return cs
